@@ -62,9 +62,10 @@ def model_check(name, progs, observed, fuel=FUEL, shard=150):
         sh = shards[k]
         v = ["From Coq Require Import ZArith List.", "From FV Require Import Core.Syntax Core.Sem Core.Typing.",
              "Import ListNotations.",
+             "Definition structs : structs_t := %s." % core.structs_coq(),
              "Definition verdict (p : prog) (obs : list line) : Z :=",
-             "  if negb (accepts p) then 1%Z else",
-             "  match run p %d with" % fuel,
+             "  if negb (accepts structs p) then 1%Z else",
+             "  match run structs p %d with" % fuel,
              "  | Done out => if lines_eqb out obs then 0%Z else 2%Z",
              "  | Undefined _ => 3%Z | OutOfFuel => 4%Z | Stuck => 5%Z end.",
              "Definition cases : list (Z * prog * list line) := ["]
@@ -92,8 +93,9 @@ def model_check(name, progs, observed, fuel=FUEL, shard=150):
 def model_output(name, prog, fuel=FUEL):
     """Ask the model what a single program prints (text of the Coq term) — for replays."""
     v = ["From Coq Require Import ZArith List.", "From FV Require Import Core.Syntax Core.Sem Core.Typing.",
-         "Import ListNotations.", "Definition p : prog := %s." % core.to_coq(prog),
-         "Eval vm_compute in (check_prog p, run p %d)." % fuel]
+         "Import ListNotations.", "Definition structs : structs_t := %s." % core.structs_coq(),
+         "Definition p : prog := %s." % core.to_coq(prog),
+         "Eval vm_compute in (check_prog structs p, run structs p %d)." % fuel]
     ok, out = common.coq_eval(name, "\n".join(v) + "\n", timeout=300)
     return out[-3000:]
 
